@@ -380,47 +380,85 @@ const MODES: [RoundingMode; 9] = [
     RoundingMode::HalfEven,
 ];
 
-/// Non-zero, asymmetric durations (all fields of one duration share a sign).
+/// Decodes an operation's selector into option values. `sel == 0` always
+/// decodes to the plainest choice (index 0 of every table), which is what the
+/// shrinker simplifies towards; every other value is a seed for an independent
+/// stream per builder (`salt`), so the whole option space is reachable.
+struct Sel {
+    rng: crate::rng::Rng,
+    zero: bool,
+}
+impl Sel {
+    fn new(sel: u32, salt: u64) -> Self {
+        Sel { rng: crate::rng::Rng::derive(sel as u64, salt, 0x5e1), zero: sel == 0 }
+    }
+    fn below(&mut self, n: u64) -> u64 {
+        if self.zero {
+            0
+        } else {
+            self.rng.below(n)
+        }
+    }
+    fn pick<T: Copy>(&mut self, xs: &[T]) -> T {
+        xs[self.below(xs.len() as u64) as usize]
+    }
+}
+
+/// Non-zero durations (all fields of one duration share a sign).
 fn duration(sel: u32) -> TemporalResult<Duration> {
-    let t: [[i32; 10]; 8] = [
-        [0, 0, 0, 1, 2, 3, 4, 5, 6, 7],
-        [0, 1, 0, 0, 0, 0, 0, 0, 0, 0],
-        [1, 2, 3, 4, 5, 6, 7, 8, 9, 10],
-        [0, 0, 0, 0, 25, 0, 0, 0, 0, 1],
-        [0, 0, 0, 0, 0, 90, 0, 0, 0, 0],
-        [0, 0, 1, 0, 0, 0, 30, 0, 0, 0],
-        [0, 0, 0, 31, 0, 0, 0, 0, 0, 0],
-        [2, 0, 0, 0, 0, 0, 0, 999, 0, 0],
-    ];
-    let row = t[(sel % 8) as usize];
-    let sign = if (sel / 8) % 2 == 1 { -1 } else { 1 };
+    let mut s = Sel::new(sel, 1);
+    const V: [i32; 16] = [0, 0, 0, 0, 1, 2, 3, 5, 7, 10, 24, 30, 59, 100, 365, 1000];
+    let mut row = [0i32; 10];
+    // most durations are sparse: pick how many fields are set
+    let filled = 1 + s.below(4) as usize + if s.below(8) == 7 { 6 } else { 0 };
+    for _ in 0..filled {
+        let i = s.below(10) as usize;
+        row[i] = s.pick(&V);
+    }
+    if row.iter().all(|x| *x == 0) {
+        row[3] = 1;
+    }
+    let sign = if s.below(3) == 2 { -1 } else { 1 };
     let f = |i: usize| FiniteF64::from(row[i] * sign);
     Duration::new(f(0), f(1), f(2), f(3), f(4), f(5), f(6), f(7), f(8), f(9))
 }
 use temporal_rs::primitive::FiniteF64;
 
+const INCREMENTS: [u32; 16] = [0, 1, 2, 3, 4, 5, 6, 8, 10, 12, 15, 20, 30, 60, 100, 500];
+
 fn diff_settings(sel: u32) -> DifferenceSettings {
+    let mut x = Sel::new(sel, 2);
     let mut s = DifferenceSettings::default();
-    let a = sel % 11;
-    let b = (sel / 11) % 11;
+    let a = x.below(11);
+    let b = x.below(11);
     if a > 0 {
         s.largest_unit = Some(UNITS[(a - 1) as usize]);
     }
     if b > 0 {
         s.smallest_unit = Some(UNITS[(b - 1) as usize]);
     }
-    let m = (sel / 121) % 10;
+    // half of the time make the pair consistent (largest >= smallest), so
+    // that the call gets past validation
+    if x.below(2) == 1 {
+        if let (Some(l), Some(sm)) = (s.largest_unit, s.smallest_unit) {
+            if l < sm {
+                s.largest_unit = Some(sm);
+                s.smallest_unit = Some(l);
+            }
+        }
+    }
+    let m = x.below(10);
     if m > 0 {
         s.rounding_mode = Some(MODES[(m - 1) as usize]);
     }
-    let inc = [0u32, 1, 2, 5, 15][((sel / 1210) % 5) as usize];
+    let inc = x.pick(&INCREMENTS);
     if inc > 0 {
         s.increment = RoundingIncrement::try_new(inc).ok();
     }
     s
 }
 fn rounding_options(sel: u32) -> RoundingOptions {
-    let d = diff_settings(sel);
+    let d = diff_settings(sel ^ 0x55aa);
     let mut o = RoundingOptions::default();
     o.largest_unit = d.largest_unit;
     o.smallest_unit = d.smallest_unit.or(Some(Unit::Hour));
@@ -429,34 +467,34 @@ fn rounding_options(sel: u32) -> RoundingOptions {
     o
 }
 fn to_string_options(sel: u32) -> ToStringRoundingOptions {
-    let precision = match sel % 5 {
+    let mut x = Sel::new(sel, 3);
+    let precision = match x.below(4) {
         0 => Precision::Auto,
         1 => Precision::Minute,
-        2 => Precision::Digit(0),
-        3 => Precision::Digit(4),
-        _ => Precision::Digit(9),
+        _ => Precision::Digit(x.below(10) as u8),
     };
-    let smallest_unit = match (sel / 5) % 5 {
-        0 => None,
-        1 => Some(Unit::Minute),
-        2 => Some(Unit::Second),
-        3 => Some(Unit::Millisecond),
+    let smallest_unit = match x.below(8) {
+        0 | 1 | 2 => None,
+        3 => Some(Unit::Minute),
+        4 => Some(Unit::Second),
+        5 => Some(Unit::Millisecond),
+        6 => Some(Unit::Microsecond),
         _ => Some(Unit::Hour), // invalid on purpose: RangeError on both sides
     };
-    let m = (sel / 25) % 10;
+    let m = x.below(10);
     let rounding_mode = if m > 0 { Some(MODES[(m - 1) as usize]) } else { None };
     ToStringRoundingOptions { precision, smallest_unit, rounding_mode }
 }
 fn display_opts(sel: u32) -> (DisplayOffset, DisplayTimeZone, DisplayCalendar) {
-    let o = [DisplayOffset::Auto, DisplayOffset::Never][((sel / 250) % 2) as usize];
-    let t = [DisplayTimeZone::Auto, DisplayTimeZone::Never, DisplayTimeZone::Critical]
-        [((sel / 500) % 3) as usize];
-    let c = [
+    let mut x = Sel::new(sel, 4);
+    let o = x.pick(&[DisplayOffset::Auto, DisplayOffset::Never]);
+    let t = x.pick(&[DisplayTimeZone::Auto, DisplayTimeZone::Never, DisplayTimeZone::Critical]);
+    let c = x.pick(&[
         DisplayCalendar::Auto,
         DisplayCalendar::Always,
         DisplayCalendar::Never,
         DisplayCalendar::Critical,
-    ][((sel / 1500) % 4) as usize];
+    ]);
     (o, t, c)
 }
 const DISAMB: [Disambiguation; 4] =
@@ -523,9 +561,14 @@ fn ixdtf(ns: i128, zone: &str, sel: u32) -> String {
 }
 
 fn plain_time(sel: u32) -> TemporalResult<PlainTime> {
-    let t = [(0u8, 0u8, 0u8, 0u16, 0u16, 0u16), (2, 30, 0, 0, 0, 0), (1, 59, 59, 999, 999, 999), (13, 7, 41, 123, 456, 789)];
-    let (h, m, s, ms, us, ns) = t[(sel % 4) as usize];
-    PlainTime::try_new(h, m, s, ms, us, ns)
+    let mut x = Sel::new(sel, 5);
+    let h = x.pick(&[0u8, 1, 2, 3, 12, 23]);
+    let m = x.pick(&[0u8, 30, 59, 7]);
+    let sec = x.pick(&[0u8, 59, 41]);
+    let ms = x.pick(&[0u16, 999, 123]);
+    let us = x.pick(&[0u16, 999, 456]);
+    let ns = x.pick(&[0u16, 999, 789]);
+    PlainTime::try_new(h, m, sec, ms, us, ns)
 }
 
 /// What `sys.rs` is specified to do with a clock reading: before the epoch is
